@@ -80,9 +80,25 @@ THOROUGH_EXTRA = [
 ]
 
 
+# grammars a process may well have compiled before the two parsers are compared: they use the
+# built-in rules (module-level objects shared by every metamodel, textx.tx's included) in every
+# decorated form
+HISTORY_GRAMMARS = [
+    ("Decl: 'decl' ID- value=INT ';';", {}),
+    ("M: INT- STRING- FLOAT- BOOL- NUMBER- x=ID;", {}),
+    ("M[noskipws]: a=ID b=ID-;", {'autokwd': True, 'ignore_case': True}),
+    ("M: xs+=ID[','] ys*=INT['and'] z=STRING?;", {'memoization': True}),
+]
+_HISTORY_DONE = []
+
+
 def live_parsers():
     import textx.lang as L
     from textx import metamodel_from_str, metamodel_for_language
+    if not _HISTORY_DONE:
+        _HISTORY_DONE.append(True)
+        for g, cfg in HISTORY_GRAMMARS:
+            metamodel_from_str(g, **cfg).model_from_str  # compiled; nothing else is done with them
     metamodel_from_str("A: 'a';")            # makes language_from_str build/cache its parser
     pa = L.textX_parsers[False]
     mmm = metamodel_for_language('textx')
